@@ -1,10 +1,10 @@
-\* exhaustive: two front ends (own clocks 0..1 set freely, own signed-head memory) over one backend, 2 certificates (one precert), tree <= 2, signer / backend faults
+\* exhaustive: one front end, clocks 0..2 (backend clock and front-end clock apart), 2 certificates, tree <= 2, signer / backend faults
 CONSTANTS
   Certs = {"x1", "p1"}
   Precerts = {"p1"}
-  MaxClock = 1
+  MaxClock = 2
   MaxTree = 2
-  FrontEnds = {"A", "B"}
+  FrontEnds = {"A"}
   CacheWriteFirst = FALSE
   Depth = 0
 INIT Init
